@@ -30,7 +30,10 @@ def c01(run):
     quick = run.tier == Q
     run.assumptions += COMMON_ASSUMPTIONS
     run.model("MC_map_w2q.cfg", "MC_map.tla", workers=8, timeout=300)
+    # start states at full load / tombstone saturation: the in-place rehash runs with live elements (and panicking hashers)
+    run.model("MC_map_w2inplaceq.cfg", "MC_map.tla", workers=8, timeout=600)
     if not quick:
+        run.model("MC_map_w2inplace.cfg", "MC_map.tla", workers=12, timeout=1500)
         run.model("MC_map_w2t.cfg", "MC_map.tla", workers=12, timeout=1500)
         run.model("MC_map_w4t.cfg", "MC_map.tla", workers=12, timeout=1500)
     n = 1 if quick else 4
@@ -190,9 +193,10 @@ def c02(run):
 
 
 def c04(run):
-    return generic_check(run, [("MC_map_w2fault.cfg", "MC_map.tla", {"timeout": 400}), ("MC_table_w2fault.cfg", "MC_table.tla", {"timeout": 300, "workers": 6}),
+    return generic_check(run, [("MC_map_w2fault.cfg", "MC_map.tla", {"timeout": 400}), ("MC_map_w2inplaceq.cfg", "MC_map.tla", {"timeout": 600}),
+                               ("MC_table_w2fault.cfg", "MC_table.tla", {"timeout": 300, "workers": 6}),
                                ("MC_set_w2fault.cfg", "MC_set.tla", {"timeout": 400, "workers": 6})],
-                         [("MC_table_w2faultt.cfg", "MC_table.tla", {"timeout": 1500, "workers": 12})],
+                         [("MC_table_w2faultt.cfg", "MC_table.tla", {"timeout": 1500, "workers": 12}), ("MC_map_w2inplace.cfg", "MC_map.tla", {"timeout": 1500, "workers": 12})],
         [("fault", ["map:kv16:collide:20:1300:fault:fault=30,plan2=fewpos", "map:k4v4:zero:14:700:fault:fault=30,plan2=collide"]),
          ("fault2", ["set:k8t:collide:20:600:setalg:fault=25,plan2=mixed", "table:te24:zero:14:600:table:fault=25", "map:kv24:onegroup:12:500:fault:fault=30"]),
          ("faultbh", ["map:kv16:collide:20:800:two:fault=60,fclass=bh_clone,plan2=fewpos", "set:k8t:zero:14:500:setalg:fault=50,fclass=bh_clone,plan2=collide"])],
